@@ -1,0 +1,66 @@
+//go:build verif
+
+package faucetsc
+
+import (
+	"time"
+
+	cstate "0chain.net/chaincore/chain/state"
+	"github.com/0chain/common/core/util"
+)
+
+// Verification hook (build tag `verif` only): read-only snapshot of the faucet's
+// global node and of the user nodes of the given clients, decoded with the
+// contract's own keys and types.  Add-only; not compiled without the tag.
+
+// VerifUser is the stored user node of one client.
+type VerifUser struct {
+	Present bool
+	Used    uint64
+	Start   time.Time
+}
+
+// VerifGlobal is the stored global node.
+type VerifGlobal struct {
+	Used            uint64
+	Start           time.Time
+	PourAmount      uint64
+	MaxPourAmount   uint64
+	PeriodicLimit   uint64
+	GlobalLimit     uint64
+	IndividualReset time.Duration
+	GlobalReset     time.Duration
+	OwnerID         string
+}
+
+// VerifSnapshot reads the nodes as they are stored (no window reset applied).
+func VerifSnapshot(balances cstate.CommonStateContextI, clientIDs []string) (VerifGlobal, map[string]VerifUser, error) {
+	gn := &GlobalNode{ID: ADDRESS}
+	if err := balances.GetTrieNode(globalNodeKey, gn); err != nil {
+		return VerifGlobal{}, nil, err
+	}
+	g := VerifGlobal{Used: uint64(gn.Used), Start: gn.StartTime}
+	if gn.FaucetConfig != nil {
+		g.PourAmount = uint64(gn.PourAmount)
+		g.MaxPourAmount = uint64(gn.MaxPourAmount)
+		g.PeriodicLimit = uint64(gn.PeriodicLimit)
+		g.GlobalLimit = uint64(gn.GlobalLimit)
+		g.IndividualReset = gn.IndividualReset
+		g.GlobalReset = gn.GlobalReset
+		g.OwnerID = gn.OwnerId
+	}
+	users := map[string]VerifUser{}
+	for _, id := range clientIDs {
+		un := &UserNode{ID: id}
+		err := balances.GetTrieNode(un.GetKey(gn.ID), un)
+		switch err {
+		case nil:
+			users[id] = VerifUser{Present: true, Used: uint64(un.Used), Start: un.StartTime}
+		case util.ErrValueNotPresent:
+			users[id] = VerifUser{}
+		default:
+			return g, nil, err
+		}
+	}
+	return g, users, nil
+}
